@@ -35,11 +35,20 @@ PYEOF
       s=$(wc -c <"$f"); if [ "$s" -le 600 ]; then cp "$f" "$WORK/corpus/seed$n"; n=$((n+1)); fi
     done ;;
 esac
+# An ASan build of the structured targets grows by ~1 MB of resident memory per execution (allocator churn; the library
+# itself does not leak: the same work in the harness stays at 250 MB). Sixteen workers must not reach the machine's memory:
+# split the campaign into more, shorter jobs (every job is a fresh process sharing the corpus directory) and let ASan hand
+# memory back.
+JOBS="$W"
+case "$T" in
+  *tape) JOBS=$((W * 4)); RUNS=$(( (RUNS + 3) / 4 )) ;;
+esac
+export ASAN_OPTIONS="${ASAN_OPTIONS:-quarantine_size_mb=32:allocator_release_to_os_interval_ms=500:malloc_context_size=2:detect_leaks=0}"
 BIN="$ROOT/fuzz/target/x86_64-unknown-linux-gnu/release/$T"
 [ -x "$BIN" ] || { echo "fuzz binary missing: $BIN"; exit 2; }
 cd "$WORK" || exit 2
 "$BIN" "$WORK/corpus" -artifact_prefix="$WORK/artifacts/" -runs="$RUNS" -seed="$SEED" -max_len=$MAXLEN -len_control=0 $DICT \
-   -jobs="$W" -workers="$W" -rss_limit_mb=6144 -timeout=300 -report_slow_units=120 -print_final_stats=1 >"$WORK/driver.log" 2>&1
+   -jobs="$JOBS" -workers="$W" -rss_limit_mb=3072 -timeout=300 -report_slow_units=120 -print_final_stats=1 >"$WORK/driver.log" 2>&1
 RC=$?
 EXECS=$(grep -h "stat::number_of_executed_units" "$WORK"/fuzz-*.log 2>/dev/null | awk '{s+=$2} END {print s+0}')
 COV=$(grep -h "cov:" "$WORK"/fuzz-*.log 2>/dev/null | sed 's/.*cov: \([0-9]*\).*/\1/' | sort -n | tail -1)
